@@ -200,7 +200,7 @@ def rule_cover(ctx, M, u):
     fields, cb, cbi = (ctor_fields(M, u.member) if u.member is not None else (None, None, None))
     if kind == "enumerate":
         # enumerate(FutureArray/FutureVec::iter(self.futures)) and the polled child is the item itself
-        if not (det[0] == "call" and det[1][1] == "iter" and det[2] and det[2][0] == scan.self_field("futures")):
+        if not (det[0] == "call" and det[1][1] in ("iter", "iter_pin_mut", "iter_pin_mut_vec", "iter_mut") and det[2] and det[2][0] == scan.self_field("futures")):
             bad.append("enumerate() is not over all of self.futures")
     elif kind == "indexer":
         ix = (fields or {}).get("indexer")
